@@ -120,6 +120,21 @@ def run(rep, tier):
 
 # --------------------------------------------------------------------------------------------------
 
+def _outside_memory(pc):
+    """Does the path condition contain  not (address < K)  for an unsigned comparison of the (zero-extended) fetch address with a constant
+    K of at least the memory size in bytes?  Such a path exists only for addresses outside memory."""
+    conj = list(pc[1:]) if isinstance(pc, tuple) and pc and pc[0] == 'and' else [pc]
+    for c in conj:
+        try:
+            if c[0] == 'not' and c[1][0] == 'bit' and c[1][1][0][0] == 'app' and c[1][1][0][1] in ('ult', 'ule'):
+                a, k = c[1][1][0][3]
+                if isinstance(k, V) and k.isconst() and k.c >= spec_isa.MEMORY_BYTES and re.fullmatch(r'\[\d+\]\((PC|LASTPC)\)', repr(a)):
+                    return True
+        except (TypeError, IndexError, AttributeError):
+            continue
+    return False
+
+
 def rule_prefix(rep, idx):
     rep.rule('R1', 'for every instruction byte, the first text printed in a traced step is formatted from (instruction count before the '
              'step, byte address of the instruction, symbol+offset, mnemonic of the executed opcode, low nibble of the byte), with no '
@@ -139,6 +154,8 @@ def rule_prefix(rep, idx):
             prints = [e for e in p.events if e[0] == 'print']
             if not prints:
                 continue
+            if _outside_memory(p.pc):
+                continue        # a path taken only for an address beyond the memory: outside the property's quantifier
             first = prints[0]
             fmt, args = flatten_format(first[2])
             sizecond = [c for c in (list(p.pc[1:]) if p.pc[0] == 'and' else [p.pc]) if 'size(debugInfo)' in repr(c)]
